@@ -765,7 +765,8 @@ O_EVERY = list(range(12, 60))      # all 16 boolean combinations x limits 0, 1, 
 PLANS.update({
     'C04': {
         'quick': [
-            A_words('w4', 4, 'full'), A_words('w4L', 4, 'full', legacy=True),
+            A_words('w3', 3, 'full'), A_words('w3L', 3, 'full', extra_opt='nodepth=1', legacy=True),
+            A_words('tok6', 6, 'token', extra_opt='nodepth=1'), A_words('tok6L', 6, 'token', extra_opt='nodepth=1', legacy=True),
             A_words('bad5', 5, 'badutf', extra_opt='nodepth=1'), A_words('bad5L', 5, 'badutf', extra_opt='nodepth=1', legacy=True),
             A_decode('dec', 1), A_decode('decL', 1, legacy=True),
             AP('d1', [1, 2, 5, 6, 7, 8, 9], O_EVERY, [1, 2, 8, 9], [1], 1),
